@@ -27,7 +27,9 @@ fn main() {
 }
 
 /// byte-order sorted pool of names that stresses lexicographic numbering
-const NAMES: [&str; 14] = ["A", "B", "Z", "a", "a1", "a10", "a9", "b", "x", "x_1", "y", "z", "zz", "zzz"];
+/// (the long ones share their first 16..24 bytes: a numbering that looks at a prefix only, or at
+/// the length, mixes them up)
+const NAMES: [&str; 23] = ["A", "B", "Sensor_reading_0123456789_c", "Z", "a", "a1", "a10", "a9", "a_very_long_variable_name_that_goes_on_0", "a_very_long_variable_name_that_goes_on_1", "b", "sensor_reading_0123456789_a", "sensor_reading_0123456789_b", "station_north_gauge_level", "station_north_gauge_level_high", "station_north_gauge_level_low", "station_north_gauge_lvl", "x", "x_1", "y", "z", "zz", "zzz"];
 
 fn sorted_subset(rng: &mut Rng, n: usize, k: usize) -> Vec<usize> {
     let mut p = rng.perm(n);
